@@ -378,7 +378,7 @@ def stateful_case(draw, kind=None):
     size = prim_size(kind, p)
     ops = []
     nops = draw(st.integers(1, 7))
-    common = ["set_transform", "set_center", "transform_inplace", "apply_transform", "apply_transform", "apply_reject"]
+    common = ["set_transform", "set_center", "transform_inplace", "apply_transform", "apply_transform", "apply_reject", "apply_mirror", "apply_mirror"]
     menu = {
         "Box": ["set_extents", "set_extents", "extents_inplace", "extents_imul"],
         "Sphere": ["set_radius", "set_radius", "set_subdivisions", "sphere_center"],
@@ -414,6 +414,12 @@ def stateful_case(draw, kind=None):
             o["v"] = [draw(st.sampled_from([0.0, 1.0, -2.0, 0.5])) for _ in range(3)]
         elif op == "apply_transform":
             o["M"] = draw(similarity(3.0, rigid_only=(kind == "Extrusion")))
+        elif op == "apply_mirror":
+            # reflection (possibly rotated, possibly with a uniform scale): det < 0
+            M = np.array(draw(placement(3.0, kinds=["mirror", "mirror", "mirror_axis"]))["M"])
+            sc = 1.0 if kind == "Extrusion" else draw(st.sampled_from([1.0, 1.0, 1.0, 2.0, 0.5]))
+            M[:3, :3] *= sc
+            o["M"] = M.tolist()
         elif op == "apply_reject":
             o["M"] = draw(gm.matrix(classes=["anisotropic", "shear"], tscale=1.0))["M"]
         elif op == "set_polygon":
